@@ -112,6 +112,8 @@ pub fn build_tag() -> &'static str {
         if b { "s3b" } else { "s3a" }
     } else if cfg!(feature = "fs_s2") {
         if b { "s2b" } else { "s2a" }
+    } else if cfg!(feature = "fs_s4") {
+        if b { "s4b" } else { "s4a" }
     } else if b {
         "s1b"
     } else {
